@@ -87,6 +87,13 @@ func (f *Frame) call(b *ssa.BasicBlock, st *State, x *ssa.Call, cc *ssa.CallComm
 		recv := f.val(cc.Value)
 		_ = recv
 		mname := cc.Method.Name()
+		{
+			cargs := []Val{recv}
+			for _, a := range cc.Args {
+				cargs = append(cargs, f.val(a))
+			}
+			f.callsiteChecksNamed(b, st, mname, shortType(cc.Value.Type())+"."+mname, cargs, instr)
+		}
 		if ict := tr.contracts.ByIface[shortType(cc.Value.Type())+"."+mname]; ict != nil {
 			var args []Val
 			args = append(args, recv)
@@ -813,13 +820,20 @@ func (f *Frame) dispatch(b *ssa.BasicBlock, st *State, cv Val, args []Val, rt ty
 
 // callsiteChecks: //@ callsite assertions of the function under contract at this call
 func (f *Frame) callsiteChecks(b *ssa.BasicBlock, st *State, fn *ssa.Function, fname string, args []Val, instr ssa.Instruction) {
+	f.callsiteChecksNamed(b, st, fn.Name(), fname, args, instr)
+}
+
+// callsiteChecksNamed: clauses "//@ callsite <callee> : <expr>" of the function under proof are
+// asserted before every call whose callee has that name (static calls and interface method calls;
+// for the latter callArg(0) is the receiver)
+func (f *Frame) callsiteChecksNamed(b *ssa.BasicBlock, st *State, fnName string, fname string, args []Val, instr ssa.Instruction) {
 	tr := f.tr
 	c := tr.c
 	if f.depth != 0 || f.contract == nil || instr == nil || len(f.contract.Callsites) == 0 {
 		return
 	}
 	for _, cs := range f.contract.Callsites {
-		if !(cs.Callee == fn.Name() || strings.HasSuffix(fname, "."+cs.Callee) || fname == cs.Callee || strings.HasSuffix(fname, ")."+cs.Callee)) {
+		if !(cs.Callee == fnName || strings.HasSuffix(fname, "."+cs.Callee) || fname == cs.Callee || strings.HasSuffix(fname, ")."+cs.Callee)) {
 			continue
 		}
 		pkg := tr.l.ByPath[f.fn.Pkg.Pkg.Path()]
